@@ -1138,6 +1138,9 @@ def script_results(repo, tier="quick"):
 PORTFOLIO = "pysmt.solvers.portfolio.Portfolio"
 PF_PROBE_MOD = "sa_probe.portfolio"
 PF_PROBE_SRC = '''
+from pysmt.exceptions import UnknownSolverAnswerError, SolverReturnedUnknownResultError, ConvertExpressionError
+
+
 class StubSolver(object):
     """Member solver seen by _run_solver: behaviour chosen by its name."""
     def __init__(self, name, logic, behaviour, verdict):
@@ -1158,6 +1161,12 @@ class StubSolver(object):
     def solve(self):
         if self.behaviour == "X":
             raise RuntimeError("member %s failed" % self.name)
+        if self.behaviour == "U":
+            raise UnknownSolverAnswerError("Solver returned: '(error \\"member %s\\")'" % self.name)
+        if self.behaviour == "K":
+            raise SolverReturnedUnknownResultError()
+        if self.behaviour == "C":
+            raise ConvertExpressionError(message="member %s cannot convert" % self.name)
         return self.verdict
 '''
 
@@ -1186,7 +1195,11 @@ class QueueModel(ExtModel):
             w.delivered.add(member)
             w.queue_of(member, self).items.append(payload)
         if self.items:
-            return self.items.pop(0)
+            item = self.items.pop(0)
+            # what was put on the queue is pickled by the sender and rebuilt here
+            if isinstance(item, tuple):
+                item = tuple(it.exc_pickle_roundtrip(x) if isinstance(x, AObj) and x.tag == "exc" else x for x in item)
+            return item
         raise AbsRaise("Empty", ())
 
     m_get_nowait = m_get
@@ -1312,12 +1325,15 @@ class PortfolioWorld(World):
         return World.getattr(self, it, obj, name)
 
 
-def _pf_scenarios(n):
+PF_FAILING = "XUKC"     # raises RuntimeError / UnknownSolverAnswerError / SolverReturnedUnknownResultError / ConvertExpressionError
+
+
+def _pf_scenarios(n, alphabet=None):
     """(behaviours, schedule skeleton): behaviours per member T (answers), X (raises), D (dies silently);
     message arrival orders; an optional time-out before each message."""
     out = []
-    for beh in itertools.product("TXD", repeat=n):
-        senders = [i for i, b in enumerate(beh) if b in "TX"]
+    for beh in (itertools.product("TXD", repeat=n) if alphabet is None else alphabet):
+        senders = [i for i, b in enumerate(beh) if b in "TXUKC"]
         for order in itertools.permutations(senders):
             for gaps in itertools.product((0, 1), repeat=len(order)):
                 out.append((beh, order, gaps))
@@ -1407,7 +1423,7 @@ def _portfolio_chunk(job):
                                 problems.append("member %d is started with the options %s; it was configured with %s"
                                                 % (p.index, dict((k_, v_) for k_, v_ in (po or {}).items() if k_ in ("limited", "seed")), mine))
                                 break
-                    if exit_on_exception and first is not None and beh[first] == "X":
+                    if exit_on_exception and first is not None and beh[first] in PF_FAILING:
                         if res[0] != "raise":
                             problems.append("exit_on_exception: the first message is a failure but solve returns %r" % (res[1],))
                     elif answering:
@@ -1585,6 +1601,10 @@ def portfolio_results(repo, tier="quick"):
                            (3, ({"seed": 1}, {"limited": True, "seed": 2}, None))):
             sc_ = [x for x in _pf_scenarios(n_) if all(b_ == "T" for b_ in x[0])]
             jobs.append((n_, sc_, False, optset))
+        # members that fail with pySMT's own exception classes (which cross the process boundary by pickle)
+        for eoe in (False, True):
+            jobs.append((2, _pf_scenarios(2, [tuple(x) for x in ("UT", "TU", "KT", "TK", "CT", "TC", "UK", "UU", "KD")]), eoe))
+            jobs.append((3, _pf_scenarios(3, [tuple(x) for x in ("UTK", "TUX", "KCT", "UDT")]), eoe))
         _portfolio_chunk((2, _pf_scenarios(2)[:2], False))
         out = []
         for job, r in zip(jobs, parallel_map(_portfolio_chunk, jobs)):
